@@ -33,6 +33,11 @@ CHECKS["C03"] = dict(level="exploration", engine="seqx",
    text="Each dataset is loaded twice inside one worker: in the baseline configuration (one open block, no accelerators, one processor) and in configuration k; 27 queries (numeric/text/wildcard/free-text filters, AND/OR/NOT, stats with/without group-by, timechart, sort, eval/where, dedup, top) must return identical normalised answers. k ranges over 8 (quick) / all 162 (thorough) flush/rotate layouts x dictionary limit {2,501} x PQS {off, on with every query registered after the first block so that pqmr bitsets and aggregation trees are written} x GOMAXPROCS {1,4}. The evidence counts configurations in which pqmr / agile-tree / sst / cmi files actually existed.",
    note="Datasets hold dense single-kind columns only (mixed/sparse columns: C02/C04). Sort-index and CMI-eviction configurations are not yet in the configuration space. One genuine accelerator defect is recorded (dc by group from aggregation trees).",
    ref="DESIGN.md §4 C03")
+CHECKS["C06"] = dict(level="exploration", engine="seqx",
+   technique="bounded-exhaustive enumeration of command chains x tables x all partitions of the input into successive batches on the real processors (real SPL parser + AggsToDataProcessors), differential against the single-batch run",
+   text="Every command alone (27 instances of where/eval/fields/rename/fillnull/rex/regex/dedup/head/tail/sort/top/rare/bin/streamstats/makemv/mvexpand/stats) over all tables of <=3 (quick) / <=4 (thorough) rows from a 6-row alphabet, and every ordered pair over fixed 4-row tables (all <=3-row tables in thorough), is fed by a harness Streamer in every composition of the rows into batches, with EOF-with-data and with an inserted empty batch; the output must equal the one-batch output (as a sequence unless the chain contains stats/top/rare).",
+   note="No storage involved. Several upstream streams (parallel chains) are not driven: the harness cannot reproduce the searcher's RRC-backed merge input (DESIGN C06). Crashes inside the storage-less harness are counted as inconclusive, not reported. Known: streamstats window not carried across batches.",
+   ref="DESIGN.md §4 C06")
 NOT_YET = {}
 props = [json.loads(l) for l in open("properties.jsonl")]
 m = {"version": 1, "setup_cmd": "./vcheck setup",
